@@ -23,13 +23,32 @@ type tryRLocker interface {
 }
 
 // Lock replaces x.Lock() for sync.Mutex / sync.RWMutex (also when embedded).
+//
+// RWMutex has writer preference: once a goroutine has called Lock and waits for the
+// active readers to drain, new RLock calls block until that writer has acquired and
+// released the lock (sync documentation; this is what makes recursive read-locking a
+// deadlock). A polling TryLock does not announce itself to the real RWMutex, so the
+// simulator keeps the set of pending writers and RLock consults it.
 func Lock(m tryLocker) {
 	if !isActive() {
 		m.Lock()
 		return
 	}
-	for !m.TryLock() {
+	if m.TryLock() {
+		return
+	}
+	rw, isRW := m.(*sync.RWMutex)
+	if isRW {
+		writerPending(unsafe.Pointer(rw), +1)
+	}
+	for {
 		blocked()
+		if m.TryLock() {
+			break
+		}
+	}
+	if isRW {
+		writerPending(unsafe.Pointer(rw), -1)
 	}
 }
 
@@ -39,9 +58,46 @@ func RLock(m tryRLocker) {
 		m.RLock()
 		return
 	}
-	for !m.TryRLock() {
+	rw, isRW := m.(*sync.RWMutex)
+	for {
+		if !(isRW && hasPendingWriter(unsafe.Pointer(rw))) && m.TryRLock() {
+			return
+		}
 		blocked()
 	}
+}
+
+type pendingW struct {
+	p unsafe.Pointer
+	n int
+}
+
+var pendingWriters []pendingW
+
+//go:norace
+func writerPending(p unsafe.Pointer, d int) {
+	for i := range pendingWriters {
+		if pendingWriters[i].p == p {
+			pendingWriters[i].n += d
+			if pendingWriters[i].n <= 0 {
+				pendingWriters = append(pendingWriters[:i], pendingWriters[i+1:]...)
+			}
+			return
+		}
+	}
+	if d > 0 {
+		pendingWriters = append(pendingWriters, pendingW{p, d})
+	}
+}
+
+//go:norace
+func hasPendingWriter(p unsafe.Pointer) bool {
+	for i := range pendingWriters {
+		if pendingWriters[i].p == p {
+			return true
+		}
+	}
+	return false
 }
 
 //go:norace
@@ -80,7 +136,7 @@ func onceLeave(p unsafe.Pointer) {
 }
 
 //go:norace
-func onceReset() { onceBusy = onceBusy[:0] }
+func onceReset() { onceBusy = onceBusy[:0]; pendingWriters = pendingWriters[:0] }
 
 // OnceDo replaces o.Do(f). The real Once blocks a second caller while the first is
 // still inside f; here the second caller yields as blocked instead.
